@@ -169,6 +169,28 @@ def run(ctx):
 
             batch.add(["chains", [True], wire, missing, []], on_nf)
 
+    # daughters spelled like the PDG names of particles that have a table under their EvtGen names (phi(1020) / phi, K(S)0 / K_S0,
+    # B~0 / anti-B0): in a .dec file a name is a label - such a daughter has no table, it is shown bare, and asking for it is refused
+    pdg_text = ("Decay D_s+\n0.7 phi(1020) pi+ PHSP;\n0.2 K(S)0 K+ PHSP;\n0.1 phi K(S)0 pi+ PHSP;\nEnddecay\nDecay phi\n1.0 K+ K- PHSP;\nEnddecay\n"
+                "Decay K_S0\n0.7 pi+ pi- PHSP;\n0.3 pi0 pi0 PHSP;\nEnddecay\nDecay B_s0\n1.0 D_s+ B~0 PHSP;\nEnddecay\nDecay anti-B0\n1.0 K(S)0 phi(1020) PHSP;\nEnddecay\n")
+    pp = DecFileParser.from_string(pdg_text)
+    pp.parse()
+    pw = conv_tree(raw_parse(pdg_text))
+    for m in ("D_s+", "B_s0", "anti-B0", "phi"):
+        for st in ([], ["phi"], ["K_S0", "phi(1020)"]):
+            one(pp, pw, pdg_text, m, st, "pdg-spelled-daughters")
+    for missing in ("phi(1020)", "K(S)0", "B~0"):
+        try:
+            pp.build_decay_chains(missing)
+            got = "accepted"
+        except DecayNotFound:
+            got = "DecayNotFound"
+        except Exception as e:
+            got = type(e).__name__
+        res.case()
+        res.count("not_found")
+        if got != "DecayNotFound":
+            res.violation("a particle without a table does not raise DecayNotFound", {"kind": "notfound", "text": pdg_text, "mother": missing}, impl=got, clause="not found")
     # a particle whose table exists only through CDecay: asked for while charge-conjugate decays are disabled (no table: refused),
     # then parsed again with them enabled - its chain, and the chains of its mothers, are those of a fresh instance
     cc_text = ("Alias MyD0 D0\nAlias Myanti-D0 anti-D0\nChargeConj MyD0 Myanti-D0\nAlias B0sig B0\nAlias anti-B0sig anti-B0\nChargeConj B0sig anti-B0sig\n"
